@@ -1,13 +1,39 @@
 //! C20: native Rust values (i32/isize/usize/bool/str/f64) as typed literals and back, and
 //! TryFromTerm on arbitrary literals, against the Coq model (C20/Model.v) and against the property
 //! itself (oracle: lexical form valid for the XSD datatype, exact round trip through every term
-//! representation and an N-Triples document, conversion never panics and only ever returns the
+//! representation and every serialisation, conversion never panics and only ever returns the
 //! value the lexical form denotes in the stated datatype).
-use sophia_api::source::TripleSource;
-use sophia_api::term::{FromTerm, SimpleTerm, Term, TermKind, TryFromTerm};
-use sophia_term::{ArcTerm, RcTerm};
+//!
+//! Every native value is looked at through the whole Term API (accessors, provided methods, borrow_term,
+//! the component iterators), copied to every other term representation (SimpleTerm owned and borrowed,
+//! CmpTerm, ArcTerm, RcTerm, GenericLiteral over four string types, ResultTerm, rio literals, the terms of
+//! the in-memory graphs and datasets it is inserted into) and written + read back in N-Triples, N-Quads,
+//! Turtle, TriG (both plain and pretty) and RDF/XML; in each of these places the literal must still be the
+//! same literal and convert back (try_from_term, try_into_term, CmpTerm<N>::try_from_term) to the value.
+//! Arbitrary terms are converted to all five native types in every representation they can be copied to.
+use rio_api::model as rio;
+use sophia_api::dataset::{Dataset, MutableDataset};
+use sophia_api::graph::{Graph, MutableGraph};
+use sophia_api::quad::{Quad, Spog};
+use sophia_api::serializer::{QuadSerializer, Stringifier, TripleSerializer};
+use sophia_api::source::{QuadSource, TripleSource};
+use sophia_api::term::{CmpTerm, FromTerm, SimpleTerm, Term, TermKind, TryFromTerm};
+use sophia_api::triple::Triple;
+use sophia_inmem::dataset::{FastDataset, LightDataset};
+use sophia_inmem::graph::{FastGraph, LightGraph};
+use sophia_rio::model::Trusted;
+use sophia_sparql::ResultTerm;
+use sophia_term::{ArcTerm, GenericLiteral, RcTerm};
+use sophia_turtle::serializer::nq::NqSerializer;
+use sophia_turtle::serializer::nt::NtSerializer;
+use sophia_turtle::serializer::trig::{TrigConfig, TrigSerializer};
+use sophia_turtle::serializer::turtle::{TurtleConfig, TurtleSerializer};
+use sophia_xml::serializer::RdfXmlSerializer;
+use std::collections::{BTreeSet, HashSet};
 use std::num::IntErrorKind;
 use std::panic::AssertUnwindSafe;
+use std::rc::Rc;
+use std::sync::Arc;
 use std::sync::atomic::{AtomicBool, Ordering};
 use verif_harness::*;
 
@@ -90,10 +116,307 @@ fn reps<T: Term + Copy>(t: T) -> Vec<(&'static str, Result<ST, String>)> {
     vec![("SimpleTerm", Ok(SimpleTerm::from_term(t))), ("ArcTerm", Ok(SimpleTerm::from_term(arc.borrow_term()))), ("RcTerm", Ok(SimpleTerm::from_term(rc.borrow_term()))), ("N-Triples", nt_roundtrip(t))]
 }
 
+// ---------------- every place a term can be copied to ----------------
+/// the bytes Term::hash feeds to a Hasher
+#[derive(Default)]
+struct Rec(Vec<u8>);
+impl std::hash::Hasher for Rec {
+    fn finish(&self) -> u64 { 0 }
+    fn write(&mut self, b: &[u8]) { self.0.extend_from_slice(b) }
+}
+fn hash_bytes<T: Term + ?Sized>(t: &T) -> Vec<u8> { let mut h = Rec::default(); Term::hash(t, &mut h); h.0 }
+fn kind_rank(k: TermKind) -> u64 { match k { TermKind::BlankNode => 0, TermKind::Iri => 1, TermKind::Literal => 2, TermKind::Triple => 3, TermKind::Variable => 4 } }
+
+/// what is done with each copy
+trait Visit {
+    fn visit<T: Term + ?Sized>(&mut self, name: &str, t: &T);
+    fn problem(&mut self, msg: String);
+    fn note(&mut self, key: &str);
+}
+/// (lexical form, datatype, language tag) as the accessors give them
+fn face_of<T: Term + ?Sized>(t: &T) -> (Option<String>, Option<String>, Option<String>) {
+    (t.lexical_form().map(|l| l.to_string()), t.datatype().map(|d| d.as_str().to_string()), t.language_tag().map(|l| l.as_str().to_string()))
+}
+/// the contract of the Term trait for a literal, through every accessor and provided method (None = respected)
+fn literal_contract<T: Term + ?Sized>(t: &T) -> Option<String> {
+    let mut p: Vec<String> = vec![];
+    if t.kind() != TermKind::Literal { p.push(format!("kind() = {:?}", t.kind())); }
+    if !t.is_literal() { p.push("is_literal() = false".into()); }
+    if !t.is_atom() { p.push("is_atom() = false".into()); }
+    if t.is_iri() || t.is_blank_node() || t.is_variable() || t.is_triple() { p.push(format!("is_iri/is_blank_node/is_variable/is_triple = {}/{}/{}/{}", t.is_iri(), t.is_blank_node(), t.is_variable(), t.is_triple())); }
+    if t.iri().is_some() || t.bnode_id().is_some() || t.variable().is_some() || t.triple().is_some() { p.push("iri(), bnode_id(), variable() or triple() is Some on a literal".into()); }
+    let face = face_of(t);
+    if face.0.is_none() || face.1.is_none() { p.push(format!("lexical_form() / datatype() = {:?} / {:?}", face.0, face.1)); return Some(p.join("; ")); }
+    // borrow_term and everything derived from it denote the same literal
+    let b = t.borrow_term();
+    if face_of(&b) != face || b.kind() != TermKind::Literal { p.push(format!("borrow_term() is {:?}", b)); }
+    if face_of(&b.borrow_term()) != face { p.push("borrow_term().borrow_term() differs".into()); }
+    let s = t.as_simple();
+    if face_of(&s) != face || s.kind() != TermKind::Literal { p.push(format!("as_simple() is {s:?}")); }
+    if b.to_triple().is_some() { p.push("to_triple() is Some".into()); }
+    let one = |what: &str, v: Vec<T::BorrowTerm<'_>>, p: &mut Vec<String>| { if v.len() != 1 { p.push(format!("{what} yields {} terms", v.len())); } else if face_of(&v[0]) != face || !Term::eq(&v[0], b) { p.push(format!("{what} yields {:?}", v[0])); } };
+    one("constituents()", t.constituents().collect(), &mut p);
+    one("atoms()", t.atoms().collect(), &mut p);
+    one("to_constituents()", b.to_constituents().collect(), &mut p);
+    one("to_atoms()", b.to_atoms().collect(), &mut p);
+    // eq / cmp / hash between the term, what it lends and its SimpleTerm copy
+    if !Term::eq(t, b) || !Term::eq(&b, s.borrow_term()) || !Term::eq(&s, b) { p.push("the term, borrow_term() and as_simple() are not Term::eq".into()); }
+    if Term::cmp(t, s.borrow_term()) != std::cmp::Ordering::Equal || Term::cmp(&s, b) != std::cmp::Ordering::Equal { p.push("Term::cmp with its own SimpleTerm copy is not Equal".into()); }
+    if hash_bytes(t) != hash_bytes(&s) || hash_bytes(&b) != hash_bytes(&s) { p.push("Term::hash differs from the hash of its SimpleTerm copy".into()); }
+    if p.is_empty() { None } else { Some(p.join("; ")) }
+}
+
+fn rio_literal<'a>(lex: &'a str, dt: &'a str, tag: Option<&'a str>) -> rio::Literal<'a> {
+    match tag { Some(language) => rio::Literal::LanguageTaggedString { value: lex, language },
+        None => if dt.strip_prefix(XSD) == Some("string") { rio::Literal::Simple { value: lex } } else { rio::Literal::Typed { value: lex, datatype: rio::NamedNode { iri: dt } } } }
+}
+fn the_object_of_graph<G: Graph, V: Visit>(name: &str, g: &G, v: &mut V) {
+    let mut n = 0;
+    for t in g.triples() { match t { Ok(t) => { n += 1; v.visit(name, &t.o()); } Err(e) => v.problem(format!("{name}: iterating the graph fails: {e}")) } }
+    if n != 1 { v.problem(format!("{name}: {n} triples after inserting one")); }
+}
+fn the_object_of_dataset<D: Dataset, V: Visit>(name: &str, d: &D, v: &mut V) {
+    let mut n = 0;
+    for q in d.quads() { match q { Ok(q) => { n += 1; v.visit(name, &q.o()); } Err(e) => v.problem(format!("{name}: iterating the dataset fails: {e}")) } }
+    if n != 1 { v.problem(format!("{name}: {n} quads after inserting one")); }
+}
+/// the in-memory copies of any term: the wrappers, the owned terms, the adapters
+fn memory_reps<X: Term + Copy, V: Visit>(x: X, v: &mut V) {
+    v.visit("borrow_term()", &x.borrow_term());
+    let c = CmpTerm(x);
+    v.visit("CmpTerm(term)", &c);
+    v.visit("CmpTerm(term).borrow_term()", &c.borrow_term());
+    let st = SimpleTerm::from_term(x);
+    v.visit("SimpleTerm::from_term", &st);
+    v.visit("&SimpleTerm", &&st);
+    let s2 = x.as_simple();
+    v.visit("as_simple() = SimpleTerm::from_term_ref", &s2);
+    match SimpleTerm::try_from_term(x) { Ok(s) => v.visit("SimpleTerm::try_from_term", &s), Err(e) => v.problem(format!("SimpleTerm::try_from_term fails: {e}")) }
+    let s3: ST = x.into_term(); v.visit("into_term::<SimpleTerm>", &s3);
+    match x.try_into_term::<ST>() { Ok(s) => v.visit("try_into_term::<SimpleTerm>", &s), Err(e) => v.problem(format!("try_into_term::<SimpleTerm> fails: {e}")) }
+    let c2 = CmpTerm::<ST>::from_term(x); v.visit("CmpTerm<SimpleTerm>::from_term", &c2);
+    let arc = ArcTerm::from_term(x); v.visit("ArcTerm::from_term", &arc); v.visit("&ArcTerm", &&arc);
+    let rc = RcTerm::from_term(x); v.visit("RcTerm::from_term", &rc);
+    let a2: ArcTerm = x.into_term(); v.visit("into_term::<ArcTerm>", &a2);
+    let c3 = CmpTerm::<ArcTerm>::from_term(st.borrow_term()); v.visit("CmpTerm<ArcTerm>::from_term(SimpleTerm)", &c3);
+    let r2 = RcTerm::from_term(arc.borrow_term()); v.visit("RcTerm::from_term(ArcTerm)", &r2);
+    let rt = ResultTerm::from(arc.clone()); v.visit("ResultTerm", &rt);
+    if x.kind() != TermKind::Literal { if let Ok(l) = GenericLiteral::<Box<str>>::try_from_term(x) { v.problem(format!("GenericLiteral::try_from_term makes the literal {l:?} of a term that is not one")); } }
+    if x.kind() == TermKind::Literal {
+        match GenericLiteral::<Box<str>>::try_from_term(x) { Ok(l) => v.visit("GenericLiteral<Box<str>>", &l), Err(e) => v.problem(format!("GenericLiteral<Box<str>>::try_from_term fails: {e}")) }
+        match GenericLiteral::<Arc<str>>::try_from_term(x) { Ok(l) => { v.visit("GenericLiteral<Arc<str>>", &l); v.visit("&GenericLiteral<Arc<str>>", &&l); } Err(e) => v.problem(format!("GenericLiteral<Arc<str>>::try_from_term fails: {e}")) }
+        match GenericLiteral::<Rc<str>>::try_from_term(st.borrow_term()) { Ok(l) => v.visit("GenericLiteral<Rc<str>>", &l), Err(e) => v.problem(format!("GenericLiteral<Rc<str>>::try_from_term fails: {e}")) }
+        match GenericLiteral::<String>::try_from_term(arc.borrow_term()) { Ok(l) => v.visit("GenericLiteral<String>", &l), Err(e) => v.problem(format!("GenericLiteral<String>::try_from_term fails: {e}")) }
+        // rio's literal (what the parsers hand out); rio's own types are only trusted with absolute datatype IRIs
+        let (lex, dt, tag) = face_of(&x);
+        if let (Some(lex), Some(dt)) = (lex, dt) { if tag.is_some() || sophia_iri::Iri::new(dt.as_str()).is_ok() {
+            let rl = rio_literal(&lex, &dt, tag.as_deref());
+            v.visit("rio Literal", &Trusted(rl)); v.visit("rio Term", &Trusted(rio::Term::Literal(rl))); v.visit("rio GeneralizedTerm", &Trusted(rio::GeneralizedTerm::Literal(rl)));
+        } }
+    }
+}
+/// the term as the object of a statement of every kind of in-memory graph and dataset
+fn container_reps<X: Term + Copy, V: Visit>(x: X, v: &mut V) {
+    let (s, p, gn) = (iri("tag:s"), iri("tag:p"), iri("tag:g"));
+    macro_rules! graph { ($name:expr, $g:expr) => {{ let mut g = $g; match MutableGraph::insert(&mut g, &s, &p, x) { Ok(_) => { the_object_of_graph($name, &g, v); the_object_of_graph(concat!("&", $name), &&g, v); } Err(e) => v.problem(format!("{}: insert fails: {e}", $name)) } }}; }
+    macro_rules! dataset { ($name:expr, $d:expr, $gname:expr) => {{ let mut d = $d; match MutableDataset::insert(&mut d, &s, &p, x, $gname) { Ok(_) => the_object_of_dataset($name, &d, v), Err(e) => v.problem(format!("{}: insert fails: {e}", $name)) } }}; }
+    graph!("Vec<[SimpleTerm; 3]>", Vec::<[ST; 3]>::new());
+    graph!("Vec<[ArcTerm; 3]>", Vec::<[ArcTerm; 3]>::new());
+    graph!("HashSet<[SimpleTerm; 3]>", HashSet::<[ST; 3]>::new());
+    graph!("BTreeSet<[ArcTerm; 3]>", BTreeSet::<[ArcTerm; 3]>::new());
+    graph!("LightGraph", LightGraph::new());
+    graph!("FastGraph", FastGraph::new());
+    dataset!("Vec<Spog<SimpleTerm>>", Vec::<Spog<ST>>::new(), Some(&gn));
+    dataset!("HashSet<Spog<RcTerm>>", HashSet::<Spog<RcTerm>>::new(), None::<&ST>);
+    dataset!("LightDataset", LightDataset::new(), Some(&gn));
+    dataset!("FastDataset", FastDataset::new(), None::<&ST>);
+}
+/// what a serialisation of one statement with the term as object reads back to; `refusable`: the format may refuse the term
+#[derive(Default)]
+struct SerOut { pretty_bare: Vec<bool> }
+fn serialisation_reps<X: Term + Copy, V: Visit>(x: X, xml: bool, xml_may_refuse: bool, v: &mut V) -> SerOut {
+    let mut out = SerOut::default();
+    let (s, p, gn) = (iri("tag:s"), iri("tag:p"), iri("tag:g"));
+    let mut g: Vec<[ST; 3]> = vec![]; let _ = MutableGraph::insert(&mut g, &s, &p, x);
+    let mut d: Vec<Spog<ST>> = vec![]; let _ = MutableDataset::insert(&mut d, &s, &p, x, Some(&gn));
+    macro_rules! triples { ($name:expr, $ser:expr, $parse:path, $may_refuse:expr, $pretty:expr) => {{
+        let mut ser = $ser;
+        match ser.serialize_graph(&g).map(|s| s.to_string()) {
+            Err(e) => if $may_refuse { v.note(concat!("refused-by:", $name)) } else { v.problem(format!("{} serializer fails: {e}", $name)) },
+            Ok(text) => {
+                if $pretty { out.pretty_bare.push(!text.contains('"')); }
+                let mut n = 0;
+                if let Err(e) = $parse(&text).for_each_triple(|t| { n += 1; v.visit(concat!($name, " (the parser's own term)"), &t.o()); }) { v.problem(format!("{}: the document {text:?} does not parse: {e}", $name)); }
+                else if n != 1 { v.problem(format!("{}: {n} statements read back from {text:?}", $name)); }
+                let back: Result<Vec<[ST; 3]>, _> = $parse(&text).collect_triples();
+                if let Ok(back) = back { if back.len() == 1 { v.visit(concat!($name, " (collected)"), &back[0][2]); } }
+            }
+        }
+    }}; }
+    macro_rules! quads { ($name:expr, $ser:expr, $parse:path, $pretty:expr) => {{
+        let mut ser = $ser;
+        match ser.serialize_dataset(&d).map(|s| s.to_string()) {
+            Err(e) => v.problem(format!("{} serializer fails: {e}", $name)),
+            Ok(text) => {
+                if $pretty { out.pretty_bare.push(!text.contains('"')); }
+                let mut n = 0;
+                if let Err(e) = $parse(&text).for_each_quad(|q| { n += 1; v.visit(concat!($name, " (the parser's own term)"), &q.o()); }) { v.problem(format!("{}: the document {text:?} does not parse: {e}", $name)); }
+                else if n != 1 { v.problem(format!("{}: {n} statements read back from {text:?}", $name)); }
+                let back: Result<Vec<Spog<ST>>, _> = $parse(&text).collect_quads();
+                if let Ok(back) = back { if back.len() == 1 { v.visit(concat!($name, " (collected)"), &back[0].0[2]); } }
+            }
+        }
+    }}; }
+    triples!("N-Triples", NtSerializer::new_stringifier(), sophia_turtle::parser::nt::parse_str, false, false);
+    triples!("Turtle", TurtleSerializer::new_stringifier(), sophia_turtle::parser::turtle::parse_str, false, false);
+    triples!("pretty Turtle", TurtleSerializer::new_stringifier_with_config(TurtleConfig::new().with_pretty(true)), sophia_turtle::parser::turtle::parse_str, false, true);
+    // C18's recorded finding rdfxml-whitespace-only-literal (third-party rio_xml reader): a literal made of XML white space only is
+    // written correctly and read back as ""; that class is left to C18 (set C20_RDFXML_WS=1 to run it here too)
+    let ws_only = face_of(&x).0.is_some_and(|l| !l.is_empty() && l.chars().all(|c| matches!(c, ' ' | '\t' | '\n' | '\r')));
+    if xml && ws_only && std::env::var_os("C20_RDFXML_WS").is_none() { v.note("rdfxml-leg-skipped:whitespace-only-literal(C18 finding)"); }
+    else if xml { triples!("RDF/XML", RdfXmlSerializer::new_stringifier(), sophia_xml::parser::parse_str, xml_may_refuse, false); }
+    quads!("N-Quads", NqSerializer::new_stringifier(), sophia_turtle::parser::nq::parse_str, false);
+    quads!("TriG", TrigSerializer::new_stringifier(), sophia_turtle::parser::trig::parse_str, false);
+    quads!("pretty TriG", TrigSerializer::new_stringifier_with_config(TrigConfig::new().with_pretty(true)), sophia_turtle::parser::trig::parse_str, true);
+    // the Turtle-family readers also take N-Triples, and the generalized readers take everything
+    if let Ok(text) = NtSerializer::new_stringifier().serialize_graph(&g).map(|s| s.to_string()) {
+        let _ = sophia_turtle::parser::turtle::parse_str(&text).for_each_triple(|t| v.visit("N-Triples read as Turtle", &t.o()));
+        let _ = sophia_turtle::parser::gtrig::parse_str(&text).for_each_quad(|q| v.visit("N-Triples read as generalized TriG", &q.o()));
+        let _ = sophia_turtle::parser::gnq::parse_str(&text).for_each_quad(|q| v.visit("N-Triples read as generalized N-Quads", &q.o()));
+    }
+    out
+}
+
+// ---------------- the five native types behind one interface ----------------
+trait Nat: Clone + std::fmt::Debug {
+    /// every public way of converting a term back to this type
+    fn back<T: Term + Copy>(t: T) -> Vec<(&'static str, Result<Self, String>)>;
+    fn same(&self, o: &Self) -> bool;
+}
+macro_rules! nat_via_try_from_term { ($ty:ty, $same:expr) => {
+    impl Nat for $ty {
+        fn back<T: Term + Copy>(t: T) -> Vec<(&'static str, Result<Self, String>)> {
+            let flat = |r: std::thread::Result<Result<$ty, String>>| r.unwrap_or_else(|_| Err("a panic".to_string()));
+            vec![("try_from_term", flat(catch_unwind(AssertUnwindSafe(|| <$ty>::try_from_term(t).map_err(|e| format!("Err({e:?})")))))),
+                 ("try_into_term", flat(catch_unwind(AssertUnwindSafe(|| t.try_into_term::<$ty>().map_err(|e| format!("Err({e:?})")))))),
+                 ("CmpTerm<native>::try_from_term", flat(catch_unwind(AssertUnwindSafe(|| CmpTerm::<$ty>::try_from_term(t).map(|c| c.0).map_err(|e| format!("Err({e:?})")))))),
+                 ("try_from_term(CmpTerm(term))", flat(catch_unwind(AssertUnwindSafe(|| <$ty>::try_from_term(CmpTerm(t)).map_err(|e| format!("Err({e:?})"))))))]
+        }
+        fn same(&self, o: &Self) -> bool { let f: fn(&$ty, &$ty) -> bool = $same; f(self, o) }
+    }
+}; }
+nat_via_try_from_term!(i32, |a, b| a == b);
+nat_via_try_from_term!(isize, |a, b| a == b);
+nat_via_try_from_term!(usize, |a, b| a == b);
+nat_via_try_from_term!(bool, |a, b| a == b);
+nat_via_try_from_term!(f64, |a, b| same_f64(*a, *b));
+/// strings have no TryFromTerm: the way back is the lexical form of an untagged xsd:string literal
+impl Nat for String {
+    fn back<T: Term + Copy>(t: T) -> Vec<(&'static str, Result<Self, String>)> {
+        let (lex, dt, tag) = face_of(&t);
+        vec![("lexical_form() of the xsd:string literal", match (lex, dt, tag) { (Some(l), Some(d), None) if d.strip_prefix(XSD) == Some("string") => Ok(l), other => Err(format!("{other:?}")) })]
+    }
+    fn same(&self, o: &Self) -> bool { self == o }
+}
+
+/// checks one copy of a native value: still the same literal, still converts back to the value
+struct NativeVisitor<'a, N: Nat> { cx: &'a mut Ctx, idx: usize, what: &'a str, x: &'a N, face: (Option<String>, Option<String>, Option<String>), home: &'a ST, images: BTreeSet<String>, kinds: BTreeSet<u64>, visited: u64 }
+impl<N: Nat> Visit for NativeVisitor<'_, N> {
+    fn visit<T: Term + ?Sized>(&mut self, name: &str, t: &T) {
+        self.visited += 1;
+        let r = catch_unwind(AssertUnwindSafe(|| {
+            let mut fails: Vec<String> = vec![];
+            if let Some(p) = literal_contract(t) { fails.push(format!("{} as {name} breaks the Term contract of a literal: {p}", self.what)); }
+            if face_of(t) != self.face { fails.push(format!("{} copied to {name} reads back as {t:?}", self.what)); }
+            let b = t.borrow_term();
+            if !Term::eq(t, self.home.borrow_term()) || !Term::eq(self.home, b) || Term::cmp(self.home, b) != std::cmp::Ordering::Equal || hash_bytes(t) != hash_bytes(self.home) { fails.push(format!("{} copied to {name} ({t:?}) is not Term::eq / cmp-Equal / hash-equal to its SimpleTerm copy {:?}", self.what, self.home)); }
+            for (how, r) in N::back(b) { match &r { Ok(y) if y.same(self.x) => {}, other => fails.push(format!("{} copied to {name} ({t:?}) converts back ({how}) to {other:?}", self.what)) } }
+            (fails, if t.kind() == TermKind::Literal && t.lexical_form().is_some() && t.datatype().is_some() { Some(coq_term(b)) } else { None }, kind_rank(t.kind()))
+        }));
+        match r {
+            Err(_) => self.cx.fail(self.idx, format!("{} copied to {name}: a panic while using the Term API on the copy", self.what)),
+            Ok((fails, image, kind)) => { for f in fails { self.cx.fail(self.idx, f); } if let Some(i) = image { self.images.insert(i); } self.kinds.insert(kind); }
+        }
+    }
+    fn problem(&mut self, msg: String) { self.cx.fail(self.idx, format!("{}: {msg}", self.what)); }
+    fn note(&mut self, key: &str) { self.cx.sum.bump(key); }
+}
+/// runs a native value through every copy; returns (the Coq lists of kinds and images, was it written bare in pretty Turtle/TriG)
+fn native_everywhere<X: Term + Copy, N: Nat>(cx: &mut Ctx, idx: usize, what: &str, x: X, n: &N, full: bool, xml_may_refuse: bool, extra: &dyn for<'b> Fn(&mut NativeVisitor<'b, N>)) -> (String, String, Option<bool>) {
+    let home = match catch_unwind(AssertUnwindSafe(|| SimpleTerm::from_term(x))) { Ok(h) => h, Err(_) => { cx.fail(idx, format!("{what}: SimpleTerm::from_term panics")); return ("[]".into(), "[]".into(), None); } };
+    let face = face_of(&x);
+    let mut v = NativeVisitor { cx, idx, what, x: n, face, home: &home, images: BTreeSet::new(), kinds: BTreeSet::new(), visited: 0 };
+    v.visit("the native value itself", &x);
+    let r = catch_unwind(AssertUnwindSafe(|| {
+        extra(&mut v);
+        memory_reps(x, &mut v);
+        if full { container_reps(x, &mut v); let o = serialisation_reps(x, true, xml_may_refuse, &mut v); Some(o.pretty_bare) } else { None }
+    }));
+    let (images, kinds, visited) = (coq_list(v.images.iter().cloned()), coq_list(v.kinds.iter().map(|k| k.to_string())), v.visited);
+    cx.sum.bump_by(if full { "copies-checked:full" } else { "copies-checked:memory-only" }, visited);
+    match r {
+        Err(_) => { cx.fail(idx, format!("{what}: a panic while copying the term")); (kinds, images, None) }
+        Ok(None) => (kinds, images, None),
+        Ok(Some(bare)) => {
+            if bare.len() != 2 || bare[0] != bare[1] { cx.fail(idx, format!("{what}: pretty Turtle and pretty TriG disagree on writing the literal bare: {bare:?}")); }
+            (kinds, images, bare.first().copied())
+        }
+    }
+}
+
+// ---------------- the five conversions on one term, in every representation of it ----------------
+/// (type, way) -> printed result; the same list for every faithful copy of a term
+fn five<T: Term + Copy>(t: T) -> Vec<String> {
+    fn show<N: Nat>(t: impl Term + Copy, f: impl Fn(&N) -> String) -> Vec<String> { N::back(t).into_iter().map(|(how, r)| format!("{how} -> {}", match r { Ok(v) => format!("Ok({})", f(&v)), Err(e) => e })).collect() }
+    let mut o = vec![];
+    o.extend(show::<i32>(t, |v| v.to_string()).into_iter().map(|s| format!("i32 {s}")));
+    o.extend(show::<isize>(t, |v| v.to_string()).into_iter().map(|s| format!("isize {s}")));
+    o.extend(show::<usize>(t, |v| v.to_string()).into_iter().map(|s| format!("usize {s}")));
+    o.extend(show::<bool>(t, |v| v.to_string()).into_iter().map(|s| format!("bool {s}")));
+    o.extend(show::<f64>(t, |v| if v.is_nan() { "NaN".to_string() } else { format!("{:#018x}", v.to_bits()) }).into_iter().map(|s| format!("f64 {s}")));
+    o
+}
+/// try_from_term only: what every copy of a term is asked (the other ways are asked of the term itself)
+fn five_lean<T: Term + Copy>(t: T) -> Vec<String> {
+    fn one<N: TryFromTerm>(t: impl Term + Copy, f: impl Fn(&N) -> String) -> String { match catch_unwind(AssertUnwindSafe(|| N::try_from_term(t))) { Err(_) => "a panic".into(), Ok(Ok(v)) => format!("Ok({})", f(&v)), Ok(Err(e)) => format!("Err({e:?})") } }
+    vec![format!("i32 try_from_term -> {}", one::<i32>(t, |v| v.to_string())), format!("isize try_from_term -> {}", one::<isize>(t, |v| v.to_string())), format!("usize try_from_term -> {}", one::<usize>(t, |v| v.to_string())),
+         format!("bool try_from_term -> {}", one::<bool>(t, |v| v.to_string())), format!("f64 try_from_term -> {}", one::<f64>(t, |v| if v.is_nan() { "NaN".to_string() } else { format!("{:#018x}", v.to_bits()) }))]
+}
+/// the ways of one type agree with each other (try_from_term = try_into_term = through CmpTerm)
+fn ways_agree(results: &[String]) -> Option<String> {
+    for ty in ["i32 ", "isize ", "usize ", "bool ", "f64 "] {
+        let rs: Vec<&str> = results.iter().filter(|r| r.starts_with(ty)).map(|r| r.split(" -> ").nth(1).unwrap_or("")).collect();
+        if rs.windows(2).any(|w| w[0] != w[1]) { return Some(format!("{}: {:?}", ty.trim(), results.iter().filter(|r| r.starts_with(ty)).collect::<Vec<_>>())); }
+    }
+    None
+}
+struct ConvVisitor<'a> { cx: &'a mut Ctx, idx: usize, shown: &'a str, base: &'a ST, expect: &'a [String], visited: u64 }
+impl Visit for ConvVisitor<'_> {
+    fn visit<T: Term + ?Sized>(&mut self, name: &str, t: &T) {
+        self.visited += 1;
+        let r = catch_unwind(AssertUnwindSafe(|| {
+            let mut fails = vec![];
+            let b = t.borrow_term();
+            if !Term::eq(t, self.base.borrow_term()) || !Term::eq(self.base, b) { fails.push(format!("{} copied to {name} is the different term {t:?}", self.shown)); }
+            let got = five_lean(b);
+            if got != self.expect { let d: Vec<String> = got.iter().zip(self.expect).filter(|(a, b)| a != b).map(|(a, b)| format!("{a} (on the SimpleTerm: {b})")).collect(); fails.push(format!("conversions of {} differ on its copy {name}: {}", self.shown, d.join(", "))); }
+            fails
+        }));
+        match r { Err(_) => self.cx.fail(self.idx, format!("{} copied to {name}: a panic", self.shown)), Ok(fails) => for f in fails { self.cx.fail(self.idx, f); } }
+    }
+    fn problem(&mut self, msg: String) { self.cx.fail(self.idx, format!("{}: {msg}", self.shown)); }
+    fn note(&mut self, key: &str) { self.cx.sum.bump(key); }
+}
+/// can the statement <tag:s> <tag:p> t be written in the concrete syntaxes at all
+fn serialisable(t: &ST) -> bool {
+    match t { SimpleTerm::LiteralDatatype(_, dt) => sophia_iri::Iri::new(dt.as_str()).is_ok(), SimpleTerm::LiteralLanguage(_, tag) => sophia_api::term::LanguageTag::new(tag.as_str()).is_ok(),
+        SimpleTerm::Iri(i) => sophia_iri::Iri::new(i.as_str()).is_ok(), SimpleTerm::BlankNode(b) => sophia_api::term::BnodeId::new(b.as_str()).is_ok(), _ => false }
+}
+
 #[derive(Clone, Debug)]
 enum Native { I32(i32), Isize(isize), Usize(usize), Bool(bool), Str(String), F64(f64) }
 #[derive(Clone, Debug)]
-enum Case { Native(Native), Conv(ST), F64Batch(Vec<f64>) }
+enum Case { Native(Native), Conv(ST), F64Batch(Vec<f64>), DtProbes(usize) }
 
 struct Ctx { sum: Summary, cases: Vec<(usize, String)>, seen: std::collections::HashSet<String>, verbose: bool }
 impl Ctx {
@@ -138,6 +461,10 @@ fn run_native(cx: &mut Ctx, idx: usize, v: &Native) {
                 }
             }
         }
+        let (kinds, images, bare) = native_everywhere(cx, idx, &what, x, &x, true, false, &|_| {});
+        body.push(format!("int_reps_ok {} {} {kinds} {images}", $k, z(x as i128)));
+        if let Some(b) = bare { body.push(format!("bare_ok (LitDt {} {}) {}", coq_str(&lex), coq_str(&dt), coq_bool(b))); }
+        cross(cx, idx, &what, x, &mut body);
         cx.sum.bump(concat!("native:", stringify!($ty)));
     }}; }
     match v {
@@ -157,6 +484,10 @@ fn run_native(cx: &mut Ctx, idx: usize, v: &Native) {
                     if name == "N-Triples" { body.push(format!("try_bool_ok {} {}", coq_term(st.borrow_term()), coq_opt(back.ok().and_then(|r| r.ok()).map(|b| coq_bool(b).to_string())))); }
                 } }
             }
+            let (kinds, images, bare) = native_everywhere(cx, idx, &what, *b, b, true, false, &|_| {});
+            body.push(format!("bool_reps_ok {} {kinds} {images}", coq_bool(*b)));
+            if let Some(w) = bare { body.push(format!("bare_ok (LitDt {} {}) {}", coq_str(&lex), coq_str(&dt), coq_bool(w))); }
+            cross(cx, idx, &what, *b, &mut body);
             cx.sum.bump("native:bool");
         }
         Native::Str(s) => {
@@ -171,15 +502,22 @@ fn run_native(cx: &mut Ctx, idx: usize, v: &Native) {
                 } }
             }
             body.push(lex_bits(s));
+            // the impl is on the unsized str: used directly (by reference) and through the forwarding impl for &str
+            { let (by_ref, unsized_) = (face_of::<&str>(&s.as_str()), face_of::<str>(s.as_str())); if by_ref != unsized_ || unsized_ != (Some(lex.clone()), Some(dt.clone()), None) { cx.fail(idx, format!("{what}: <str as Term> gives {unsized_:?} and <&str as Term> gives {by_ref:?}")); } }
+            let sref: &str = s.as_str();
+            let (kinds, images, bare) = native_everywhere(cx, idx, &what, sref, s, true, !lex_string(s), &|v| v.visit::<str>("str (the unsized type itself)", sref));
+            body.push(format!("str_reps_ok {} {kinds} {images}", coq_str(s)));
+            if let Some(w) = bare { body.push(format!("bare_ok (LitDt {} {}) {}", coq_str(&lex), coq_str(&dt), coq_bool(w))); }
+            cross(cx, idx, &what, sref, &mut body);
             cx.sum.bump("native:str");
         }
-        Native::F64(x) => { run_f64(cx, idx, *x, Some(&mut body)); }
+        Native::F64(x) => { run_f64(cx, idx, *x, Some(&mut body), true); }
     }
     cx.cases.push((idx, body.join(" && ")));
 }
 
 /// one double: validity of the lexical form and exact round trip through every representation
-fn run_f64(cx: &mut Ctx, idx: usize, x: f64, body: Option<&mut Vec<String>>) {
+fn run_f64(cx: &mut Ctx, idx: usize, x: f64, body: Option<&mut Vec<String>>, full: bool) {
     let what = format!("the f64 {}", show_f64(x));
     let (lex, dt) = native_face(cx, idx, &what, x, "double", lex_double);
     match catch_unwind(AssertUnwindSafe(|| f64::try_from_term(x))) { Ok(Ok(y)) if same_f64(x, y) => {}, other => cx.fail(idx, format!("{what}: try_from_term on the native term itself gives {other:?}")) }
@@ -191,19 +529,65 @@ fn run_f64(cx: &mut Ctx, idx: usize, x: f64, body: Option<&mut Vec<String>>) {
             if name == "N-Triples" { if let Ok(r) = &back { class = f64_class(&st.lexical_form().unwrap(), r); } }
         } }
     }
+    // every double goes through the copies above; those marked `full` also through every other representation, container and syntax
+    let (kinds, images, bare) = if full { native_everywhere(cx, idx, &what, x, &x, true, false, &|_| {}) } else { ("[]".to_string(), "[]".to_string(), None) };
     let sig = lex.chars().filter(|c| c.is_ascii_digit()).collect::<String>().trim_start_matches('0').trim_end_matches('0').len();
     cx.sum.bump(if x.is_nan() { "f64:nan" } else if x.is_infinite() { "f64:infinite" } else if x == 0.0 { "f64:zero" } else if x.is_subnormal() { "f64:subnormal" } else if sig >= 17 { "f64:17-significant-digits" } else if lex.len() > 25 { "f64:huge-or-tiny-magnitude" } else if x.fract() == 0.0 { "f64:integral" } else { "f64:other-finite" });
     if let Some(body) = body {
         let code = if x.is_nan() { Some(0) } else if x == f64::INFINITY { Some(1) } else if x == f64::NEG_INFINITY { Some(2) } else if x == 0.0 { Some(if x.is_sign_negative() { 4 } else { 3 }) } else { None };
-        if let Some(c) = code { body.push(format!("f64_term_ok {c} {} {}", coq_str(&lex), coq_str(&dt))); }
+        if let Some(c) = code { body.push(format!("f64_term_ok {c} {} {}", coq_str(&lex), coq_str(&dt))); body.push(format!("f64_reps_ok {c} {kinds} {images}")); }
+        body.push(format!("reps_ok (LitDt {} {}) {kinds} {images}", coq_str(&lex), coq_str(&dt)));
+        if let Some(w) = bare { body.push(format!("bare_ok (LitDt {} {}) {}", coq_str(&lex), coq_str(&dt), coq_bool(w))); }
+        cross(cx, idx, &what, x, body);
         // the model's reader on the text the implementation wrote
         body.push(format!("try_f64_ok (LitDt {} {}) {class}", coq_str(&lex), coq_str(&dt)));
         body.push(lex_bits(&lex));
     }
 }
 
-/// TryFromTerm of the five native types on an arbitrary term
+/// a native term handed directly to the conversions of the OTHER native types: same answers as on its SimpleTerm copy,
+/// whose answers are then checked by the oracle and the model like those of any other term
+fn cross<X: Term + Copy>(cx: &mut Ctx, idx: usize, what: &str, x: X, body: &mut Vec<String>) {
+    let st = SimpleTerm::from_term(x);
+    let (direct, on_copy) = (five(x), five(st.borrow_term()));
+    if direct != on_copy { let d: Vec<String> = direct.iter().zip(&on_copy).filter(|(a, b)| a != b).map(|(a, b)| format!("{a} (on its SimpleTerm copy: {b})")).collect(); cx.fail(idx, format!("{what} handed to the native conversions directly: {}", d.join(", "))); }
+    if let Some(d) = ways_agree(&direct) { cx.fail(idx, format!("{what}: try_from_term, try_into_term and the CmpTerm detours disagree: {d}")); }
+    body.extend(conv_body(cx, idx, &st));
+}
+
+/// TryFromTerm of the five native types on an arbitrary term, in every representation of it
 fn run_conv(cx: &mut Ctx, idx: usize, t: &ST) {
+    let mut body = conv_body(cx, idx, t);
+    let lit = t.is_literal();
+    let shown = format!("{t:?}");
+    let expect = five(t.borrow_term());
+    if let Some(d) = ways_agree(&expect) { cx.fail(idx, format!("{shown}: try_from_term, try_into_term and the CmpTerm detours disagree: {d}")); }
+    let written = lit && serialisable(t);
+    let xml = written && t.lexical_form().is_some_and(|l| lex_string(&l));
+    let lean: Vec<String> = expect.iter().filter(|r| r.contains(" try_from_term -> ")).cloned().collect();
+    if lean != five_lean(t.borrow_term()) { cx.fail(idx, format!("{shown}: try_from_term gives different answers when asked twice")); }
+    let mut v = ConvVisitor { cx, idx, shown: &shown, base: t, expect: &lean, visited: 0 };
+    let r = catch_unwind(AssertUnwindSafe(|| {
+        memory_reps(t, &mut v);
+        if written { container_reps(t, &mut v); Some(serialisation_reps(t, xml, false, &mut v).pretty_bare) } else { None }
+    }));
+    let visited = v.visited;
+    cx.sum.bump_by(if written { "conv-copies-checked:full" } else { "conv-copies-checked:memory-only" }, visited);
+    match r {
+        Err(_) => cx.fail(idx, format!("{shown}: a panic while copying the term")),
+        Ok(None) => {}
+        Ok(Some(bare)) => {
+            if bare.len() != 2 || bare[0] != bare[1] { cx.fail(idx, format!("{shown}: pretty Turtle and pretty TriG disagree on writing the literal bare: {bare:?}")); }
+            if let Some(b) = bare.first() { body.push(format!("bare_ok {} {}", coq_term(t.borrow_term()), coq_bool(*b))); cx.sum.bump(if *b { "conv-pretty:bare" } else { "conv-pretty:quoted" }); }
+        }
+    }
+    let dt = t.datatype().map(|d| d.as_str().to_string()).unwrap_or_default();
+    cx.sum.bump(&format!("conv:{}", if !lit { "not-a-literal".to_string() } else if t.language_tag().is_some() { "language-tagged".into() } else { dt.strip_prefix(XSD).unwrap_or("other-datatype").to_string() }));
+    cx.cases.push((idx, body.join(" && ")));
+}
+
+/// oracle and model cases for TryFromTerm of the five native types on one term
+fn conv_body(cx: &mut Ctx, idx: usize, t: &ST) -> Vec<String> {
     let lit = t.is_literal();
     let lex = t.lexical_form().map(|l| l.to_string()).unwrap_or_default();
     let dt = t.datatype().map(|d| d.as_str().to_string()).unwrap_or_default();
@@ -268,11 +652,112 @@ fn run_conv(cx: &mut Ctx, idx: usize, t: &ST) {
         }
     }
     if lit { body.push(lex_bits(&lex)); }
-    cx.sum.bump(&format!("conv:{}", if !lit { "not-a-literal".to_string() } else if t.language_tag().is_some() { "language-tagged".into() } else { dt.strip_prefix(XSD).unwrap_or("other-datatype").to_string() }));
-    cx.cases.push((idx, body.join(" && ")));
+    body
+}
+
+// ---------------- datatype IRIs next to the ones the conversions look for ----------------
+/// the IRI constants the conversions (and the code they call) compare a datatype with
+fn dt_constants() -> Vec<String> { let mut v: Vec<String> = CONV_DTS[..18].iter().map(|d| xsd(d)).collect(); v.push(format!("{RDF}langString")); v }
+/// the same constants as sophia_api::ns spells them (same order as dt_constants)
+fn ns_constants() -> Vec<sophia_api::ns::NsTerm<'static>> {
+    use sophia_api::ns::{rdf, xsd as x};
+    vec![x::integer, x::nonPositiveInteger, x::negativeInteger, x::long, x::int, x::short, x::byte, x::nonNegativeInteger, x::unsignedLong, x::unsignedInt, x::unsignedShort, x::unsignedByte, x::positiveInteger,
+         x::decimal, x::double, x::float, x::boolean, x::string, rdf::langString]
+}
+/// a lexical form the real datatype accepts (so that a wrong match would show as Ok)
+fn valid_lex_for(c: &str) -> &'static str { match c.rsplit('#').next().unwrap_or("") { "boolean" => "true", "negativeInteger" => "-1", "nonPositiveInteger" => "0", _ => "1" } }
+fn iri_ref_ok(s: &str) -> bool { sophia_api::term::IriRef::new(s).is_ok() }
+/// IRI references that are not the (ASCII) constant `c` but close to it in every way a comparison could cut corners:
+/// (family, IRI); families: same byte length with one character / the whole tail / the whole head replaced at every offset,
+/// one byte longer or shorter, a 2-, 3- or 4-byte character lying across every byte offset (in the constant's own text and in a filler of
+/// the same byte length), every proper tail and every proper head of the constant, IRIs that start or end with the whole constant
+fn iri_neighbours(c: &str) -> Vec<(String, String)> {
+    assert!(c.is_ascii());
+    let l = c.len(); let mut v: Vec<(String, String)> = vec![];
+    let other = |b: u8| if b == b'x' { 'y' } else { 'x' };
+    for k in 0..l {
+        v.push((format!("same-length:char-replaced@{k}"), format!("{}{}{}", &c[..k], other(c.as_bytes()[k]), &c[k + 1..])));
+        v.push((format!("same-length:tail-replaced@{k}"), format!("{}{}", &c[..k], "x".repeat(l - k))));
+        if k >= 2 { v.push((format!("same-length:head-replaced@{k}"), format!("x:{}{}", "a".repeat(k - 2), &c[k..]))); }
+        if k > 0 { v.push((format!("tail@{k}"), c[k..].to_string())); v.push((format!("head@{k}"), c[..k].to_string())); }
+    }
+    v.push(("tail@end (empty reference)".into(), String::new()));
+    for (n, ch) in [(2usize, '\u{e9}'), (3, '\u{20ac}'), (4, '\u{10000}')] {
+        for p in 0..=l - n {
+            v.push((format!("same-length:{n}-byte-char@{p}"), format!("{}{ch}{}", &c[..p], &c[p + n..])));
+            v.push((format!("same-length-filler:{n}-byte-char@{p}"), if p >= 2 { format!("x:{}{ch}{}", "a".repeat(p - 2), "a".repeat(l - p - n)) } else { format!("{}{ch}{}", "a".repeat(p), "a".repeat(l - p - n)) }));
+        }
+        // one byte more / less than the constant, the character across the namespace boundary
+        let ns = c.find('#').map(|i| i + 1).unwrap_or(l / 2);
+        v.push((format!("longer:{n}-byte-char@{}", ns - 1), format!("{}{ch}{}", &c[..ns - 1], &c[ns + n - 2..])));
+        if ns + n <= l { v.push((format!("shorter:{n}-byte-char@{}", ns - 1), format!("{}{ch}{}", &c[..ns - 1], &c[ns + n..]))); }
+    }
+    v.push(("longer:char-appended".into(), format!("{c}x"))); v.push(("longer:char-prepended".into(), format!("x{c}")));
+    v.push(("shorter:last-char-dropped".into(), c[..l - 1].to_string())); v.push(("shorter:first-char-dropped".into(), c[1..].to_string()));
+    v.push(("ends-with-the-constant".into(), format!("x:{c}"))); v.push(("ends-with-the-constant".into(), format!("http://a/{c}")));
+    v.push(("starts-with-the-constant".into(), format!("{c}/x"))); v.push(("starts-with-the-constant".into(), format!("{c}\u{e9}")));
+    v.push(("other-case".into(), c.to_ascii_uppercase())); v.push(("other-case".into(), c.to_ascii_lowercase()));
+    v.retain(|(_, i)| i != c);
+    v
+}
+/// the few neighbours of each constant that also run as full cases (every representation, every syntax, the Coq model)
+fn chosen_neighbours(c: &str) -> Vec<String> {
+    let l = c.len(); let ns = c.find('#').map(|i| i + 1).unwrap_or(l / 2);
+    let want = [format!("same-length:2-byte-char@{}", ns - 1), format!("same-length:3-byte-char@{}", ns - 1), format!("same-length:3-byte-char@{}", ns - 2), format!("same-length:4-byte-char@{}", ns - 2),
+        format!("same-length-filler:2-byte-char@{}", ns - 1), format!("same-length:2-byte-char@{}", l - 2), format!("same-length:char-replaced@{}", l - 1), format!("same-length:char-replaced@{}", ns - 1), "same-length:char-replaced@0".to_string(),
+        format!("tail@{}", ns - 1), format!("tail@{ns}"), format!("head@{ns}"), "longer:char-appended".to_string(), "shorter:last-char-dropped".to_string(), "ends-with-the-constant".to_string(), "starts-with-the-constant".to_string()];
+    let all = iri_neighbours(c);
+    want.iter().filter_map(|w| all.iter().find(|(f, i)| f == w && iri_ref_ok(i)).map(|(_, i)| i.clone())).collect()
+}
+/// every neighbour of the k-th constant as the datatype of a literal whose lexical form the real datatype accepts, handed to the five conversions
+/// in five representations: never a panic, never Ok (the datatype is not one the conversion lists), never Term::eq to the real literal
+fn run_dt_probes(cx: &mut Ctx, idx: usize, k: usize) -> u64 {
+    let consts = dt_constants(); let c = &consts[k]; let lex = valid_lex_for(c);
+    let real = lit_dt(lex, c);
+    let nst = ns_constants()[k];
+    // the constant itself, as the ns module spells it and as `lexical * datatype` builds the literal
+    match catch_unwind(AssertUnwindSafe(|| {
+        let mut bad: Vec<String> = vec![];
+        if nst.iri().map(|i| i.as_str().to_string()).as_deref() != Some(c.as_str()) || nst.iriref().as_str() != c || nst.kind() != TermKind::Iri { bad.push(format!("the ns module spells it {nst:?}")); }
+        if !Term::eq(&nst, iri(c)) || !Term::eq(&iri(c), nst) || !(nst == iri(c)) { bad.push("NsTerm and the IRI are not Term::eq".into()); }
+        let built = lex * nst;
+        if !Term::eq(&built, &real) || five(&built) != five(&real) { bad.push(format!("\"{lex}\" * datatype builds {built:?}")); }
+        if c.starts_with(XSD) { let via_ns = sophia_api::ns::Namespace::new(XSD).ok().and_then(|n| n.get(&c[XSD.len()..]).ok().map(|t| Term::eq(&t, nst) && t == iri(c))); if via_ns != Some(true) { bad.push("Namespace::get gives another term".into()); } }
+        bad
+    })) { Err(_) => cx.fail(idx, format!("datatype constant <{c}>: a panic while comparing the NsTerm with its own IRI")), Ok(bad) => if !bad.is_empty() { cx.fail(idx, format!("datatype constant <{c}>: {}", bad.join("; "))); } }
+    let mut n = 0;
+    for (family, i) in iri_neighbours(c) {
+        if consts.contains(&i) { cx.sum.bump("datatype-neighbour:is-another-constant"); continue; }
+        if !iri_ref_ok(&i) { cx.sum.bump("datatype-neighbour:not-an-IRI-reference"); continue; }
+        n += 1;
+        cx.sum.bump(&format!("datatype-neighbour:{}", family.split('@').next().unwrap_or("")));
+        let r = catch_unwind(AssertUnwindSafe(|| {
+            let t = lit_dt(lex, &i);
+            let mut bad: Vec<String> = vec![];
+            fn ask_in(bad: &mut Vec<String>, name: &str, res: Vec<String>) { for r in res { if !r.contains("-> Err(") { bad.push(format!("{r} in {name}")); } } }
+            macro_rules! ask { ($n:expr, $r:expr) => { ask_in(&mut bad, $n, $r) }; }
+            ask!("SimpleTerm", five_lean(&t));
+            ask!("CmpTerm<&SimpleTerm>", five_lean(CmpTerm(&t)));
+            let arc = ArcTerm::from_term(&t); ask!("ArcTerm", five_lean(&arc));
+            match GenericLiteral::<Box<str>>::try_from_term(&t) { Ok(g) => ask!("GenericLiteral<Box<str>>", five_lean(&g)), Err(e) => bad.push(format!("GenericLiteral::try_from_term fails: {e}")) }
+            if sophia_iri::Iri::new(i.as_str()).is_ok() { ask!("rio Literal", five_lean(Trusted(rio_literal(lex, &i, None)))); }
+            if Term::eq(&t, &real) || Term::eq(&real, &t) || Term::eq(&arc, &real) || Term::cmp(&t, &real) == std::cmp::Ordering::Equal { bad.push("Term::eq / Term::cmp take it for the real literal".into()); }
+            // the comparison the conversions are built on, in both directions and through the operators
+            let d = t.datatype().unwrap();
+            if Term::eq(&d, nst) || Term::eq(&nst, d.borrow_term()) || nst == d || nst == arc.datatype().unwrap() { bad.push("the datatype IRI compares equal to the NsTerm constant".into()); }
+            bad
+        }));
+        match r {
+            Err(_) => cx.fail(idx, format!("datatype IRI next to <{c}> ({family}): a panic while copying \"{lex}\"^^<{i}>")),
+            Ok(bad) => if !bad.is_empty() { cx.fail(idx, format!("datatype IRI next to <{c}> ({family}): \"{lex}\"^^<{i}> (a datatype no conversion lists; conversions must refuse it and never panic): {}", bad.join("; "))); }
+        }
+    }
+    n
 }
 
 // ---------------- generators ----------------
+/// doubles of a batch that also go through the containers and the serialisations (all of them go through the in-memory copies)
+const FULL_PER_BATCH: usize = 3;
 const FLOAT_FORMS: [&str; 62] = ["0", "-0", "+0", "1", "-1", "1.5", "-1.5", "+1.5", ".5", "-.5", "5.", "+5.", "1e5", "1E5", "1e+5", "1E-5", "-1.5e-3", ".5e1", "5.e1", "1e400", "-1e400", "1e-400", "-1e-400",
     "0.1", "0.3", "16777217", "3.4028235e38", "3.4028236e38", "1e39", "1e-46", "0.30000000000000004", "1.7976931348623157e308", "1.7976931348623159e308", "4.9e-324", "2e-324",
     "INF", "+INF", "-INF", "NaN", "inf", "-inf", "+inf", "Inf", "infinity", "-Infinity", "INFINITY", "nan", "NAN", "+NaN", "-NaN", "-nan",
@@ -312,10 +797,29 @@ fn fixed_cases() -> Vec<Case> {
         for f in INT_MALFORMED { c.push(Case::Conv(lit_dt(f, &xsd(dt)))); }
         for (a, b) in PADS { c.push(Case::Conv(lit_dt(&format!("{a}7{b}"), &xsd(dt)))); }
     }
+    // the other integer datatypes: a shorter list of signed / padded / malformed forms
+    for dt in ["nonNegativeInteger", "int", "short", "byte", "unsignedLong", "unsignedInt", "unsignedShort"] {
+        for f in ["+0", "-0", "+1", "-1", "007", "-007", " 7", "7 ", "", "1.0", "1e3", "0x10", "\u{0663}", "+", "-"] { c.push(Case::Conv(lit_dt(f, &xsd(dt)))); }
+    }
+    // near misses of every datatype IRI the white-lists name (a valid lexical form of the real datatype each time):
+    // other case, one character more or less, another namespace spelling
+    for dt in &CONV_DTS[..17] {
+        let f = match *dt { "boolean" => "true", "negativeInteger" => "-1", "nonPositiveInteger" => "0", _ => "1" };
+        let mut up = dt.to_string(); up[..1].make_ascii_uppercase();
+        for near in [format!("{XSD}{up}"), format!("{XSD}{}", dt.to_ascii_lowercase()), format!("{XSD}{dt}s"), format!("{XSD}{}", &dt[..dt.len() - 1]), format!("{XSD}{dt}%20"), format!("{XSD}{dt}/"), format!("{XSD}?{dt}"),
+                     format!("https://www.w3.org/2001/XMLSchema#{dt}"), format!("http://www.w3.org/2001/XMLSchema{dt}"), format!("http://www.w3.org/2001/XMLSchema/{dt}"), format!("http://www.w3.org/2001/xmlschema#{dt}"),
+                     format!("{RDF}{dt}"), format!("xsd:{dt}"), dt.to_string()] {
+            if near != xsd(dt) { c.push(Case::Conv(lit_dt(f, &near))); }
+        }
+    }
+    // the white-listed datatypes with the forms of the OTHER families (an integer datatype on "true", "1.5", "NaN"; xsd:boolean on numerals ...)
+    for dt in &CONV_DTS[..17] { for f in ["true", "false", "1.5", "NaN", "INF", "-INF", "1e0", "0", "1", "-1", "+1", "00", " ", "१"] { c.push(Case::Conv(lit_dt(f, &xsd(dt)))); } }
+    for f in ["1", "true", "1.5", "INF"] { for tag in ["en", "EN-us", "x-integer"] { c.push(Case::Conv(lit_lang(f, tag))); } }
     for dt in ["double", "float", "decimal"] { for f in FLOAT_FORMS { c.push(Case::Conv(lit_dt(f, &xsd(dt)))); } for (a, b) in PADS { c.push(Case::Conv(lit_dt(&format!("{a}1.5{b}"), &xsd(dt)))); } }
     for f in ["true", "false", "1", "0", "TRUE", "True", " true", "true ", "", "yes", "01", "+1"] { c.push(Case::Conv(lit_dt(f, &xsd("boolean")))); }
     for dt in ["string", "dateTime", "anyURI", "Integer", "INTEGER", "integer%20", "doubl", "doublee"] { for f in ["5", "true", "1.5", "NaN"] { c.push(Case::Conv(lit_dt(f, &xsd(dt)))); } }
     for f in ["5", "true", "1.5"] { c.push(Case::Conv(lit_dt(f, "http://www.w3.org/2001/XMLSchema/integer"))); c.push(Case::Conv(lit_dt(f, "integer"))); c.push(Case::Conv(lit_dt(f, ""))); c.push(Case::Conv(lit_lang(f, "en"))); }
+    for (k, c0) in dt_constants().iter().enumerate() { c.push(Case::DtProbes(k)); for i in chosen_neighbours(c0) { c.push(Case::Conv(lit_dt(valid_lex_for(c0), &i))); } }
     for t in [iri(&xsd("integer")), iri("5"), iri(""), bnode("b5"), bnode("5"), var("v"), triple(iri("tag:s"), iri("tag:p"), lit_dt("5", &xsd("integer"))), triple(lit_dt("5", &xsd("integer")), lit_dt("true", &xsd("boolean")), lit_dt("1.5", &xsd("double")))] { c.push(Case::Conv(t)); }
     c
 }
@@ -374,6 +878,8 @@ fn random_case(r: &mut Rng) -> Case {
         1 => { let n = r.below(8); let pool = ['a', 'Z', '0', ' ', '"', '\\', '\n', '\r', '\t', '\u{0}', '\u{1f}', '\u{7f}', 'é', '\u{d7ff}', '\u{e000}', '\u{fffd}', '\u{fffe}', '\u{ffff}', '\u{10000}', '\u{10ffff}', '<', '>', '^', '@', '.']; Case::Native(Native::Str((0..n).map(|_| *r.pick(&pool)).collect())) }
         2 | 3 => Case::Native(Native::F64(random_f64(r))),
         4 | 5 => Case::F64Batch((0..500).map(|_| random_f64(r)).collect()),
+        6 if r.chance(1, 2) => { let cs = dt_constants(); let c0 = r.pick(&cs).clone(); let nb: Vec<(String, String)> = iri_neighbours(&c0).into_iter().filter(|(_, i)| iri_ref_ok(i)).collect();
+            let i = &r.pick(&nb).1; let lex = if r.chance(3, 4) { valid_lex_for(&c0).to_string() } else { r.pick(&["5", "-5", "true", "1.5", "NaN", ""]).to_string() }; Case::Conv(lit_dt(&lex, i)) }
         6 | 7 | 8 => { let dt = *r.pick(&CONV_DTS[..16]); Case::Conv(lit_dt(&random_int_lex(r, if int_facets(&xsd(dt)).is_some() { dt } else { "integer" }), &xsd(dt))) }
         9 | 10 => { let dt = *r.pick(&["double", "float", "decimal", "double", "float", "decimal", "integer", "string"]);
             let lex = if matches!(dt, "double" | "float") && r.chance(1, 4) { midpoint_lex(r, dt == "float") } else if r.chance(1, 3) { r.pick(&FLOAT_FORMS).to_string() } else { let x = random_f64(r); let mut s = match r.below(4) { 0 => format!("{x}"), 1 => format!("{x:e}"), 2 => format!("{x:E}"), _ => format!("{:.*}", r.below(20), x) };
@@ -388,22 +894,27 @@ fn main() {
     let default_hook = std::panic::take_hook();
     std::panic::set_hook(Box::new(move |info| { if !QUIET.load(Ordering::SeqCst) { default_hook(info) } }));
     let mut cx = Ctx { sum: Summary::default(), cases: vec![], seen: Default::default(), verbose: a.only.is_some() };
-    cx.sum.rule = "case = either a native value (i32/isize/usize/bool/str/f64: every extreme, zero and negative zero, subnormals, infinities, NaNs, 17-digit and huge/tiny-exponent doubles, strings with control and non-characters) checked through the Term API, SimpleTerm, ArcTerm, RcTerm and an N-Triples write+read, \
-or a term (literals of the 13 integer datatypes, decimal, double, float, boolean, other datatypes, language-tagged, non-literals; lexical forms at and around every datatype and native bound, signed, zero-padded, whitespace-padded, malformed) converted with try_from_term to all five native types, \
-or a batch of 500 random doubles (oracle only); non-trivial = everything except literals whose datatype no conversion accepts; distinct = distinct (kind, value/term)".into();
+    cx.sum.rule = "case = either a native value (i32/isize/usize/bool/str/f64: every extreme, zero and negative zero, subnormals, infinities, NaNs, 17-digit and huge/tiny-exponent doubles, strings with control and non-characters) checked through the whole Term API (accessors, provided methods, borrow_term, component iterators, eq/cmp/hash), \
+every in-memory representation (SimpleTerm owned/borrowed, CmpTerm, ArcTerm, RcTerm, GenericLiteral over Box/Arc/Rc<str>/String, ResultTerm, rio literals), the terms of ten kinds of graphs/datasets it is inserted into, and a write+read in N-Triples, N-Quads, Turtle, TriG, pretty Turtle, pretty TriG and RDF/XML (parser's own terms and collected terms), converting back with try_from_term, try_into_term and CmpTerm<native> in each place, and handed to the conversions of the other native types, \
+or a term (literals of the 13 integer datatypes, decimal, double, float, boolean, other datatypes, near-miss datatype IRIs, language-tagged, non-literals; lexical forms at and around every datatype and native bound, signed, zero-padded, whitespace-padded, malformed, of another family) converted with try_from_term to all five native types in every representation and syntax it can be copied to, \
+or a batch of 500 random doubles (oracle only), or the batch of all neighbours of one datatype IRI constant (same length with one character / the tail / the head replaced at every offset, multi-byte characters across every byte offset, every head and tail, one byte more or less; oracle only: no panic, no Ok); \
+non-trivial = everything except literals whose datatype no conversion accepts and that is not next to a constant (byte length within 1, contains or is contained in one); distinct = distinct (kind, value/term)".into();
     let fixed = fixed_cases();
+    let consts = dt_constants();
     let base = Rng::new(a.seed);
     let range: Vec<usize> = match a.only { Some(i) => vec![i], None => (0..a.n).collect() };
     for idx in range {
         let case = if idx < fixed.len() { fixed[idx].clone() } else { random_case(&mut base.fork(idx as u64)) };
         if a.only.is_some() { println!("CASE {idx}: {case:?}"); }
         let key = format!("{case:?}");
-        let trivial = matches!(&case, Case::Conv(t) if t.is_literal() && t.language_tag().is_none() && !CONV_DTS[..17].iter().any(|d| t.datatype().unwrap().as_str() == xsd(d)));
+        let trivial = matches!(&case, Case::Conv(t) if t.is_literal() && t.language_tag().is_none() && !CONV_DTS[..17].iter().any(|d| t.datatype().unwrap().as_str() == xsd(d))
+            && { let d = t.datatype().unwrap(); let d = d.as_str(); !consts.iter().any(|c| d.len().abs_diff(c.len()) <= 1 || (!d.is_empty() && c.contains(d)) || d.contains(c.as_str())) });
         let before = cx.sum.oracle_failures.len();
         match &case {
             Case::Native(v) => { run_native(&mut cx, idx, v); cx.sum.evaluations += 1; }
             Case::Conv(t) => { run_conv(&mut cx, idx, t); cx.sum.evaluations += 1; }
-            Case::F64Batch(xs) => { for x in xs { run_f64(&mut cx, idx, *x, None); } cx.sum.evaluations += xs.len() as u64; cx.sum.bump("f64-batches"); }
+            Case::DtProbes(k) => { let n = run_dt_probes(&mut cx, idx, *k); cx.sum.evaluations += n; cx.sum.bump("datatype-neighbour-batches"); }
+            Case::F64Batch(xs) => { for (k, x) in xs.iter().enumerate() { run_f64(&mut cx, idx, *x, None, k < FULL_PER_BATCH); } cx.sum.evaluations += xs.len() as u64; cx.sum.bump("f64-batches"); }
         }
         if cx.seen.insert(key.clone()) && !trivial { cx.sum.distinct_nontrivial += 1; }
         if a.only.is_some() { if let Some((_, b)) = cx.cases.last() { println!("COQ: {b}"); } println!("oracle failures on this case: {}", cx.sum.oracle_failures.len() - before); }
